@@ -193,6 +193,11 @@ def f_dbl(v):
     return v * 2
 
 
+def _item_gt3(v):
+    d = v[0] if isinstance(v, tuple) and len(v) == 2 and isinstance(v[1], dict) else v
+    return d > 3
+
+
 def f_ran(v):
     return ("ran", v)
 
@@ -266,6 +271,9 @@ ELEMENTS = {
               "B": GENERIC_B + STR_B + [["hist1d", "plain"], ["graph"]]},
     "RunIfStateful": {"make": lambda: RunIf(_is_sel, IdxTag(), lena.flow.Count()), "A": [["sel", 1], ["sel", 2], ["sel_pair", 3], ["sel", 4]],
                       "B": GENERIC_B + STR_B + [["hist1d", "plain"]]},
+    # a mapped sequence that yields nothing for every item of some groups (those are dropped with a warning)
+    "MapGroupFilter": {"make": lambda: MapGroup(lena.flow.Filter(_item_gt3), map_scalars=False), "A": [["group", 1], ["group", 5], ["group", 0]],
+                       "B": GENERIC_B + STR_B + [["list_nogroup"], ["scalar_group"], ["scalar_group_empty"], ["hist1d", "plain"]]},
     "MapGroup": {"make": lambda: MapGroup(f_dbl, map_scalars=False), "A": [["group", 1], ["group", 5]],
                  "B": GENERIC_B + STR_B + [["list_nogroup"], ["scalar_group"], ["scalar_group_empty"], ["hist1d", "plain"]]},
 }
@@ -384,7 +392,7 @@ FAST = sorted(n for n in ELEMENTS if n not in ("LaTeXToPDF", "PDFToPNG"))
 
 CHECKS = [
     Check("interleave", judge, strategy=lambda tier: cases(names=FAST), quick=2400, thorough=60000,
-          rule="ToCSV, Write, RenderLaTeX, HistToGraph, MapBins, IterateBins, RunIf (with a per-value and with a flow-dependent inner sequence), MapGroup(map_scalars=False): 0-4 selected values, 0-6 unselected ones from a pool of ~25 per element "
+          rule="ToCSV, Write, RenderLaTeX, HistToGraph, MapBins, IterateBins, RunIf (with a per-value and with a flow-dependent inner sequence), MapGroup(map_scalars=False; also with a filtering sequence that empties some groups): 0-4 selected values, 0-6 unselected ones from a pool of ~25 per element "
                "(bare numbers, tuples, foreign objects, None, dicts, strings, pairs with unrelated / variable / scalar-output contexts, and the element's documented disabling cases: output.to_csv False, 3-dimensional histograms, "
                "output.write False, data equal to the path it would write, foreign filetypes, histogram.to_graph False, unselected bin types, non-groups), every interleaving. "
                "Non-trivial = >= 1 selected, >= 2 unselected with a (data, context) pair among them, and an interleaving that is not a concatenation."),
